@@ -354,18 +354,24 @@ class JsonHistoryFlusher(threading.Thread):
         if at_exit:
             with self.cond:
                 self.cond.wait_for(self.i_am_at_the_front)
-                self.dump()
-                self.queue.popleft()
-                self.cond.notify_all()
+                try:
+                    self.dump()
+                finally:
+                    # whatever happened to this flush, the next in line
+                    # must get its turn
+                    self.queue.popleft()
+                    self.cond.notify_all()
         else:
             self.start()
 
     def run(self):
         with self.cond:
             self.cond.wait_for(self.i_am_at_the_front)
-            self.dump()
-            self.queue.popleft()
-            self.cond.notify_all()
+            try:
+                self.dump()
+            finally:
+                self.queue.popleft()
+                self.cond.notify_all()
 
     def i_am_at_the_front(self):
         """Tests if the flusher is at the front of the queue."""
@@ -474,14 +480,16 @@ class JsonCommandField(cabc.Sequence):
         queue.append(self)
         with self.hist._cond:
             self.hist._cond.wait_for(self.i_am_at_the_front)
-            with open(self.hist.filename, newline="\n", encoding="utf-8") as f:
-                lj = xlj.LazyJSON(f, reopen=False)
-                rtn = lj["cmds"][key].get(self.field, self.default)
-                if isinstance(rtn, xlj.LJNode):
-                    rtn = rtn.load()
-            queue.popleft()
-            # wake up flushers/readers queued behind this ticket
-            self.hist._cond.notify_all()
+            try:
+                with open(self.hist.filename, newline="\n", encoding="utf-8") as f:
+                    lj = xlj.LazyJSON(f, reopen=False)
+                    rtn = lj["cmds"][key].get(self.field, self.default)
+                    if isinstance(rtn, xlj.LJNode):
+                        rtn = rtn.load()
+            finally:
+                queue.popleft()
+                # wake up flushers/readers queued behind this ticket
+                self.hist._cond.notify_all()
         return rtn
 
     def i_am_at_the_front(self):
